@@ -272,9 +272,9 @@ def run_textmut(case):
         raise Violation("totality", f"{tname}: from_text accepted {text!r}; its wire {mw.hex()} is rejected: {e!r}", "wire-rejected:" + tname)
     if back != m:
         raise Violation("roundtrip", f"{tname}: text {text!r} -> record -> wire -> record differs", "text-wire:" + tname)
-    if (tname == "TKEY" and len(m.key) == 0) or (tname == "TSIG" and len(m.mac) == 0):
-        # same scoping as the grammar's "text-lossy" flag: the ad-hoc text forms of these two meta
-        # types cannot spell an empty key / MAC (base64 decoding of a junk token yields one)
+    if (tname == "TKEY" and len(m.key) == 0) or (tname == "TSIG" and len(m.mac) == 0) or (tname == "HIP" and (len(m.key) == 0 or len(m.hit) == 0)):
+        # same scoping as the grammar's "text-lossy" flag: these text forms cannot spell an empty
+        # key / MAC / HIT (base64 decoding of a junk token such as "." yields one)
         try:
             m.to_text()
         except Exception as e:
